@@ -38,9 +38,17 @@ def build_requests(rng, n_problems):
         formats = {target[1]: fm[target[1]]}
         for n in gen.tensors_of(tree):
             formats[n] = fm[n]
-        reqs.append({"assignment": gen.show_assignment(target, tree), "formats": formats,
-                     "kinds": kindsets[k % len(kindsets)], "language": "c" if k % 2 == 0 else "llvm",
-                     "omit_dense": k % 3 == 0})
+        base = {"assignment": gen.show_assignment(target, tree), "formats": formats,
+                "kinds": kindsets[k % len(kindsets)], "language": "c" if k % 2 == 0 else "llvm",
+                "omit_dense": k % 3 == 0}
+        reqs.append(base)
+        # near-identical requests for the same problem: what was generated before must not matter
+        if len(base["kinds"]) >= 2:
+            reqs.append({**base, "kinds": list(reversed(base["kinds"]))})
+        if k % 2 == 0:
+            reqs.append({**base, "language": "llvm" if base["language"] == "c" else "c"})
+        if k % 5 == 0:
+            reqs.append({**base, "kinds": [base["kinds"][0]]})
     return reqs
 
 
@@ -113,7 +121,7 @@ def sharing_checks(run, rng):
 def main(tier):
     run = Run(PID, tier, LEVEL, RULE)
     rng = random.Random(f"C15-{run.seed}")
-    n_problems = 400 if tier == "quick" else 3000
+    n_problems = 220 if tier == "quick" else 2000
     reqs = build_requests(rng, n_problems)
     evals = []
     for case in engine.curated_cases(random.Random(f"C15e-{run.seed}"), 1, 1, include_broadcast=False):
